@@ -1,6 +1,7 @@
 (* C08 -- property theorems only. *)
 From Coq Require Import Reals ZArith List Bool Lra.
 From Coquelicot Require Import Coquelicot.
+From WNTRV Require Import C04.Window.
 From WNTRV Require Import Lib.ExprR Gen.Formulas Lib.Spline Lib.SplineMono Lib.Sched C08.Model C08.Proofs C08.Mono.
 Local Open Scope R_scope.
 
@@ -41,7 +42,22 @@ Qed.
 Theorem C08_leak_start_fires : forall start cur prev,
   (prev < start <= cur)%Z -> eval_sim Req start 0 cur prev = (true, (cur - start)%Z).
 Proof. exact leak_start_fires. Qed.
+(* the leak window over the WHOLE run: add_leak(start_time, end_time) registers "leak_status := True AT TIME start" and
+   "leak_status := False AT TIME end" (one priority); with no other control on it the leak status (slot l of the scheduler model,
+   initially off) is on at a solved step exactly when start <= time < end, and steps are solved at exactly start and at exactly end
+   when the run reaches them -- for every hydraulic / rule grid and also when both instants fall inside one hydraulic step *)
+Theorem C08_leak_window_exact : forall start stop hs rs sc D l st0 p f tr sf,
+  (0 < rs)%Z -> (0 < hs)%Z -> (0 < start < stop)%Z -> (l < length st0)%nat -> nth l st0 true = false ->
+  steps f (Window.g2 start stop hs rs sc D l st0 p) D (init_state (Window.g2 start stop hs rs sc D l st0 p)) = Some (tr, sf) ->
+  (forall e, In e tr -> nth l (snd e) false = Window.active start stop (fst e)) /\
+  ((start <= Window.s_prev sf)%Z -> In start (map fst tr)) /\ ((stop <= Window.s_prev sf)%Z -> In stop (map fst tr)).
+Proof.
+  intros start stop hs rs sc D l st0 p f tr sf H1 H2 H3 H4 H5 H6.
+  destruct (window_exact start stop hs rs sc D l st0 p H1 H2 H3 H4 f tr sf H5 H6) as (Ha & Hb & Hc).
+  split; [intros e He; exact (proj1 (Ha e He))|split; assumption].
+Qed.
 Print Assumptions C08_leak_law.
+Print Assumptions C08_leak_window_exact.
 Print Assumptions C08_leak_C0_C1.
 Print Assumptions C08_sqrt_law_derivative.
 Print Assumptions C08_leak_monotone.
